@@ -737,7 +737,7 @@ func genC14(seed uint64, tier string) Scenario {
 		s.Ctl = append(s.Ctl, []CtlOp{{Wait: genShutdownTrigger(g), Op: "shutdown"}})
 	}
 	cid := 0
-	nClients := g.IntN(4)
+	nClients := g.IntN(2 + 2*deeper(tier))
 	for c := 0; c < nClients; c++ {
 		cs := genLifeClient(g, s, &cid, g.Pct(50))
 		switch g.IntN(10) {
@@ -838,7 +838,7 @@ func genC15(seed uint64, tier string) Scenario {
 		cs.MustServe = !scripted
 		s.Clients = append(s.Clients, cs)
 	}
-	nClients := g.IntN(4)
+	nClients := g.IntN(2 + 2*deeper(tier))
 	for c := 0; c < nClients; c++ {
 		cs := genLifeClient(g, s, &cid, g.Pct(60))
 		switch g.IntN(8) {
